@@ -1,6 +1,7 @@
 package rules
 
 import (
+	"go/constant"
 	"fmt"
 	"go/token"
 	"go/types"
@@ -243,6 +244,20 @@ func ruleGuardedIndexing(c *Ctx, rule string) {
 						}
 						scoped = true
 						leaf := leaf
+						// result + k with k >= 1 is never negative (the result is -1 at worst): `LastIndexByte(s, c) + 1`
+						if bo, isBin := bound.(*ssa.BinOp); isBin && bo.Op == token.ADD {
+							atLeast1 := func(v ssa.Value) bool {
+								k, isK := v.(*ssa.Const)
+								if !isK || k.Value == nil {
+									return false
+								}
+								n, exact := constant.Int64Val(constant.ToInt(k.Value))
+								return exact && n >= 1
+							}
+							if (bo.X == leaf && atLeast1(bo.Y)) || (bo.Y == leaf && atLeast1(bo.X)) {
+								continue
+							}
+						}
 						// the guard must stand between the search and the first instruction that consumes its raw
 						// result on the way to the bound (the slice itself, or the arithmetic / loop variable it
 						// flows into): a value derived in an earlier, guarded iteration is not this iteration's -1
